@@ -274,6 +274,118 @@ func run(c *runner.Ctx) {
 			}
 		}
 	}
+	plausibleNames(c)
+}
+
+// NS: one string field without tag rules; its rule comes with the call.
+type NS struct {
+	V string
+}
+
+// plausibleNames: functions supplied for the call, then registered globally, under names a user coming from another
+// validation library would pick. Such a name is a name like any other: without a function it is unknown, with a
+// call-supplied function that function runs, with a global one the global one runs unless the call brings its own.
+// Runs last in the process: the global registrations stay.
+func plausibleNames(c *runner.Ctx) {
+	names := []string{"min", "max", "len", "ne", "oneof", "contains", "mobile", "regexp", "startswith", "endswith", "gte", "lte",
+		"length", "size", "between", "notnull", "nonzero", "notempty", "alpha", "alnum", "numeric", "number", "uuid", "url", "uri", "ipaddr",
+		"jsonstr", "ascii", "lower", "upper", "enum", "pattern", "range", "eqfield", "default", "omitempty", "dive", "optional", "str", "string", "bool",
+		"Required", "PHONE", "In", "to_", "_to", "eq2", "re2", "either2", "botheq_"}
+	type ep struct {
+		name string
+		run  func(rule, fnName string, fn valid.CommonValidFn) error
+	}
+	eps := []ep{
+		{"StructForFns", func(rule, fnName string, fn valid.CommonValidFn) error {
+			m := valid.Name2FnMap{}
+			if fn != nil {
+				m[fnName] = fn
+			}
+			return valid.StructForFns(&NS{V: "abc"}, valid.RM{"V": rule}, m)
+		}},
+		{"ValidStructForMyValidFn/NewVStruct.SetValidFn", func(rule, fnName string, fn valid.CommonValidFn) error {
+			v := valid.NewVStruct().SetRule(valid.RM{"V": rule})
+			if fn != nil {
+				v.SetValidFn(fnName, fn)
+			}
+			return v.Valid(&NS{V: "abc"})
+		}},
+		{"MapFn", func(rule, fnName string, fn valid.CommonValidFn) error {
+			m := valid.Name2FnMap{}
+			if fn != nil {
+				m[fnName] = fn
+			}
+			return valid.MapFn(map[string]string{"V": "abc"}, valid.RM{"V": rule}, m)
+		}},
+		{"NewVUrl.SetValidFn", func(rule, fnName string, fn valid.CommonValidFn) error {
+			v := valid.NewVUrl().SetRule(valid.RM{"V": rule})
+			if fn != nil {
+				v.SetValidFn(fnName, fn)
+			}
+			return v.Valid("http://h/p?V=abc")
+		}},
+		{"NewVVar.SetValidFn", func(rule, fnName string, fn valid.CommonValidFn) error {
+			v := valid.NewVVar().SetRules(rule)
+			if fn != nil {
+				v.SetValidFn(fnName, fn)
+			}
+			return v.Valid("abc")
+		}},
+	}
+	for phase := 0; phase < 2; phase++ {
+		if phase == 1 {
+			for _, n := range names {
+				valid.SetCustomerValidFn(n, mkFn("global-"+n))
+			}
+		}
+		c.Space([]string{"functions-under-plausible-names/none-registered-globally", "functions-under-plausible-names/registered-globally"}[phase])
+		for _, n := range names {
+			for _, e := range eps {
+				for _, form := range []string{"%s", "%s=3", "%s|own-message"} {
+					for _, withCall := range []bool{false, true} {
+						if !c.Take() {
+							continue
+						}
+						rule := fmt.Sprintf(form, n)
+						var fn valid.CommonValidFn
+						want := ""
+						switch {
+						case withCall:
+							fn = mkFn("call-" + n)
+							want = "call-" + n
+						case phase == 1:
+							want = "global-" + n
+						}
+						var err error
+						pan, msg, site := runner.Guard(func() { err = e.run(rule, n, fn) })
+						c.Done(true, 1)
+						got := ""
+						if err != nil {
+							got = err.Error()
+						}
+						det := map[string]interface{}{"entry_point": e.name, "rule": rule, "function_given_for_the_call": withCall, "registered_globally": phase == 1, "actual": got}
+						if pan {
+							det["panic"] = msg
+							c.Violation("panic@"+site, det)
+							continue
+						}
+						if want == "" {
+							// no definition anywhere: the name is reported as unknown
+							if !strings.Contains(got, "valid \""+n+"\" is not exist") {
+								c.Violation("plausible-name/unknown-name-not-reported", det)
+								continue
+							}
+						} else if explainParts(got) != want {
+							det["expected_explanation"] = want
+							c.Violation("plausible-name/wrong-function-ran", det)
+							continue
+						}
+						c.Outcome("ok")
+					}
+				}
+			}
+		}
+	}
 }
 
 // Node is self-referential: nested values have the outermost type, where only a typed set (not the unscoped one) applies.
